@@ -1,6 +1,7 @@
 import IxpeVerif.RealInst
 import IxpeVerif.Model.Rates
 import IxpeVerif.Model.Gti
+import IxpeVerif.Gen.RatesGen
 import IxpeVerif.Props.C01
 import IxpeVerif.Props.C18
 import Mathlib.MeasureTheory.Measure.Lebesgue.Basic
@@ -84,6 +85,49 @@ that time) -/
 theorem energy_sampling_law (F : ℝ → ℝ → ℝ) (ppf : ℝ → ℝ → ℝ) (t : ℝ) (hF : StrictMono (F t)) (eps u E : ℝ)
     (h : |F t (ppf t u) - u| ≤ eps) : (ppf t u ≤ E → u ≤ F t E + eps) ∧ (u ≤ F t E - eps → ppf t u ≤ E) :=
   C01.inverse_transform_eps (F t) (ppf t) hF eps u E h
+
+/-! ## T-tie of the count-spectrum glue and of the vignetting rule (translator/lamtrans.py → `Gen/RatesGen.lean`)
+
+`xSourceSpectrum._pdf`, the `conv` closure of `xCountSpectrum.__init__` and the arguments that connect them are closures over callables: they are
+regenerated as Lean functions on functions. -/
+
+/-- **what the regenerated `xCountSpectrum.__init__` tabulates is the count spectrum of the model**: for every source spectrum, effective area,
+transmission, column density, redshift and scale factor -/
+theorem gen_count_pdf_eq_model (S : ℝ → ℝ → ℝ) (aeff T : ℝ → ℝ) (nH z scale E t : ℝ) :
+    Gen.Rates.count_pdf S aeff T nH z scale E t = countSpectrum S aeff (if nH ≤ 0 then none else some T) scale z E t := by
+  unfold Gen.Rates.count_pdf Gen.Rates.source_pdf Gen.Rates.count_conv countSpectrum conv
+  rl_simp
+  have e : ((0.0 : ℝ) = 0) := by norm_num
+  by_cases h : nH ≤ 0
+  · simp [h, e]
+  · simp [h, e]
+
+/-- … so, on the current source: the source spectrum is read at the source-frame energy E (1 + z), the effective area and the absorption at the
+observed energy E -/
+theorem gen_count_pdf_pointwise (S : ℝ → ℝ → ℝ) (aeff T : ℝ → ℝ) (nH z scale E t : ℝ) (hz : -1 < z) (hn : 0 < nH) :
+    Gen.Rates.count_pdf S aeff T nH z scale E t = T E * (scale * aeff E * S (E * (1 + z)) t) := by
+  rw [gen_count_pdf_eq_model, if_neg (not_le.mpr hn)]
+  exact count_spectrum_pointwise S aeff T scale z E t hz
+
+theorem gen_count_pdf_unabsorbed (S : ℝ → ℝ → ℝ) (aeff T : ℝ → ℝ) (nH z scale E t : ℝ) (hz : -1 < z) (hn : nH ≤ 0) :
+    Gen.Rates.count_pdf S aeff T nH z scale E t = scale * aeff E * S (E * (1 + z)) t := by
+  rw [gen_count_pdf_eq_model, if_pos hn]
+  exact count_spectrum_unabsorbed S aeff scale z E t hz
+
+/-- the regenerated vignetting rule is the hit-or-miss of the model at the vignetting evaluated at the true energy and at the off-axis angle in
+arcminutes -/
+theorem gen_vign_keep_eq_model (vign : ℝ → ℝ → ℝ) (energy sep u : ℝ) :
+    Gen.Rates.vign_keep vign energy sep u = vignKeep (vign energy (sep * 60)) u := by
+  unfold Gen.Rates.vign_keep Gen.Rates.degrees_to_arcmin vignKeep
+  rl_simp
+  norm_num
+
+/-- … hence an event at off-axis angle θ (degrees) survives with probability min(1, max(0, vign(E, 60 θ))) -/
+theorem gen_vign_keep_prob (vign : ℝ → ℝ → ℝ) (energy sep : ℝ) :
+    MeasureTheory.volume {u : ℝ | 0 ≤ u ∧ u < 1 ∧ Gen.Rates.vign_keep vign energy sep u = true} =
+      ENNReal.ofReal (min 1 (max 0 (vign energy (sep * 60)))) := by
+  simp only [gen_vign_keep_eq_model]
+  exact vignetting_keep_prob _
 
 end C03
 end
